@@ -4,15 +4,57 @@
  * overflow).  Class invariant from the constructor (checked there against the file header, not re-verified here):
  * width even >= 2, height odd >= 3, _rlonres = width/360, _rlatres = (height-1)/180. */
 /*@ uses Geoid_rawval */
+/*@ capture-before double a = (1 - fx) * v00 :: cap_fx=fx:double cap_fy=fy:double cap_v00=v00:double cap_v01=v01:double cap_v10=v10:double cap_v11=v11:double cap_ix=ix:int cap_iy=iy:int */
 /*@ ghost */
 #define GH_INV (self->_width >= 2 && self->_width % 2 == 0 && self->_width <= 1000000 && self->_height >= 3 && self->_height % 2 == 1 && self->_height <= 1000001 && \
                 self->_rlonres == self->_width / 360.0 && self->_rlatres == (self->_height - 1) / 180.0)
 /*@ clause pre.invariant src=constructor */
 __CPROVER_requires(GH_INV && verif_thrown == 0)
 /*@ clause frame src=property props=C14,C20 */
-__CPROVER_assigns(verif_thrown;
+__CPROVER_assigns(verif_thrown, cap_fx, cap_fy, cap_v00, cap_v01, cap_v10, cap_v11, cap_ix, cap_iy;
                   !self->_threadsafe: self->_ix, self->_iy, self->_v00, self->_v01, self->_v10, self->_v11, __CPROVER_object_whole(self->_t))
 /*@ clause post.no_other_exception src=property props=C13 */
 __CPROVER_ensures(!verif_thrown_other)
 /*@ clause post.nan src=property props=C20,C13 */
 __CPROVER_ensures(!(isnan(lat) || isnan(lon) || fabs(lat) > 90.0) || (isnan(__CPROVER_return_value) && !verif_thrown))
+/*@ harness-alt history */
+/* Lemma (C20 "bit-for-bit independent of the object's history"), bilinear interpolation, ONE call on an object whose cell cache is
+   arbitrary but consistent (representation invariant: the cached cell index is the constructor's sentinel / out of range, or the four
+   cached values are the raster values of that cell), in either threading mode:
+     (1) the four values that enter the interpolation are the raster values of the cell (ix, iy) -- whichever path (cache hit, cache
+         miss, thread-safe) supplied them;
+     (2) the cache is consistent afterwards (so the invariant holds along every history).
+   ix, iy, fx, fy are computed from lat, lon and immutable members before the first read of a mutable member (Geoid.cpp, first ten lines of
+   height), and h is straight-line arithmetic on (fx, fy, the four values, _offset, _scale): so the height is a function of the position and the
+   raster alone.  That last step is an argument about data flow made here in prose, not an obligation; a two-call harness comparing the two
+   heights bit for bit was tried and did not finish (two copies of the same floating-point circuit must be proved equal). */
+#define GEOID_PIX(i, j) __CPROVER_uninterpreted_geoid_pix(i, j)
+#define GEOID_PIXOK(v) (0.0 <= (v) && (v) <= 4294967295.0 && !signbit(v))
+#define GEOID_CACHE_OK(g) ((g)._threadsafe || (g)._ix < 0 || (g)._ix >= (g)._width || (g)._iy < -1 || (g)._iy > (g)._height - 2 || \
+   (GEOID_PIXOK((g)._v00) && GEOID_PIXOK((g)._v01) && GEOID_PIXOK((g)._v10) && GEOID_PIXOK((g)._v11) && (g)._v00 == GEOID_PIX((g)._ix, (g)._iy) && \
+    (g)._v01 == GEOID_PIX((g)._ix + 1, (g)._iy) && (g)._v10 == GEOID_PIX((g)._ix, (g)._iy + 1) && (g)._v11 == GEOID_PIX((g)._ix + 1, (g)._iy + 1)))
+void h_Geoid_height(void) {
+  VERIF_GHOST_INIT
+  struct Geoid nondet_struct_Geoid(void);
+  struct Geoid in_a = nondet_struct_Geoid();
+  __CPROVER_assume(!in_a._cubic);
+  /* class invariant established by the constructor (the precondition of the contract above) */
+  __CPROVER_assume(in_a._width >= 2 && in_a._width % 2 == 0 && in_a._width <= 1000000 && in_a._height >= 3 && in_a._height % 2 == 1 && in_a._height <= 1000001 &&
+                   in_a._rlonres == in_a._width / 360.0 && in_a._rlatres == (in_a._height - 1) / 180.0);
+  __CPROVER_assume(GEOID_CACHE_OK(in_a));
+  double in_lat = nondet_double(), in_lon = nondet_double();
+  verif_thrown = 0; verif_thrown_other = 0;
+  double ha = Geoid_height(&in_a, in_lat, in_lon);
+  _Bool nanpos = isnan(in_lat) || isnan(in_lon) || isinf(in_lon) || fabs(in_lat) > 90.0;
+  __CPROVER_assert(!nanpos || verif_thrown || isnan(ha), "lemma.nan_position");
+#ifdef GEOID_RANGE_LEMMAS
+  __CPROVER_assert(verif_thrown || nanpos || (0 <= cap_ix && cap_ix < in_a._width && -1 <= cap_iy && cap_iy <= in_a._height - 2), "lemma.cell_in_grid");   /* row -1: 90 * _rlatres may round up; rawval reflects it at the pole */
+#endif
+  __CPROVER_assert(verif_thrown || nanpos || (cap_v00 == GEOID_PIX(cap_ix, cap_iy) && cap_v01 == GEOID_PIX(cap_ix + 1, cap_iy) &&
+                                              cap_v10 == GEOID_PIX(cap_ix, cap_iy + 1) && cap_v11 == GEOID_PIX(cap_ix + 1, cap_iy + 1)), "lemma.values_are_raster_values");
+#ifdef GEOID_RANGE_LEMMAS
+  __CPROVER_assert(verif_thrown || nanpos || (0.0 <= cap_fx && cap_fx <= 1.0 && 0.0 <= cap_fy && cap_fy <= 1.0 + 1e-9), "lemma.weights_in_unit_interval");   /* at the south pole fy can exceed 1 by rounding */
+#endif
+  __CPROVER_assert(verif_thrown || GEOID_CACHE_OK(in_a), "lemma.cache_consistent_after");
+  __CPROVER_assert(0, "canary: end of harness reachable");
+}
